@@ -500,8 +500,18 @@ func (x *VC) comp(key, idxSort, elemSort string) *Comp {
 	return c
 }
 
+func (x *VC) immutableComp(key string) bool {
+	return x.eng.db.Immutable[key]
+}
+
 func (x *VC) epochName(c *Comp, ep *Epoch) string {
 	if n, ok := c.byEp[ep.id]; ok {
+		return n
+	}
+	if x.immutableComp(c.Key) && ep.id != 0 {
+		// immutable fields look the same in every epoch (stores into fresh objects are explicit versions)
+		n := x.epochName(c, &Epoch{id: 0, kind: "base"})
+		c.byEp[ep.id] = n
 		return n
 	}
 	var n string
@@ -550,6 +560,9 @@ func (x *VC) set(st *State, c *Comp, term string) {
 
 // havocComp replaces one component by a fresh version.
 func (x *VC) havocComp(st *State, c *Comp) {
+	if x.immutableComp(c.Key) {
+		return
+	}
 	prev := x.get(st, c)
 	n := x.declare(c.Base+"_hv", c.Sort)
 	st.H[c.Key] = n
